@@ -44,4 +44,23 @@ theorem gfpNeg_interp (e : Env) (s : State) (junk : Nat) :
         mem := store4 (s.alias .c) (negLimbs (envP e) (load4 s.mem (s.alias .a))) s.mem } :=
   ⟨_, _, _, _, rfl⟩
 
+
+/-! ### reading the result back -/
+
+theorem load4_store4_same (blk : Blk) (v : L4) (m : Blk → Nat → Nat) : load4 (store4 blk v m) blk = v := by
+  simp [load4, store4]
+
+theorem store4_other (blk k : Blk) (v : L4) (m : Blk → Nat → Nat) (h : k ≠ blk) (i : Nat) :
+    store4 blk v m k i = m k i := by
+  simp [store4, h]
+
+/-- words of a block beyond index 3 do not exist for the code: nothing else is written -/
+theorem store4_high (blk k : Blk) (v : L4) (m : Blk → Nat → Nat) (i : Nat) (h : 4 ≤ i) :
+    store4 blk v m k i = m k i := by
+  have h3 : i ≠ 3 := by omega
+  have h2 : i ≠ 2 := by omega
+  have h1 : i ≠ 1 := by omega
+  have h0 : i ≠ 0 := by omega
+  simp [store4, h3, h2, h1, h0]
+
 end Dos.Asm
